@@ -154,7 +154,7 @@ class C15(Prop):
             text_ok = all(self._encodable(cell_text(c), enc) for r in t for c in r)
             if not text_ok:
                 return True
-            if q == 3 and any(ch in cell_text(c) for r in t for c in r for ch in (delim, quote, '\r', '\n')):
+            if q == 3 and self._qnone_refuses(t, delim, quote):
                 return True          # QUOTE_NONE cannot represent these cells (csv.Error): outside the claim
             if q == 2 and any(not isinstance(c, str) and c is not None for r in t for c in r):
                 return True
@@ -173,7 +173,7 @@ class C15(Prop):
             t1 = [('h1', 'h2')] + [list(r) for r in rows1]
             t2 = [('h1', 'h2')] + [list(r) for r in rows2]
             cells = [c for t in (t1, t2) for r in t for c in r]
-            if q == 3 and any(ch in cell_text(c) for c in cells for ch in (delim, quote, '\r', '\n')):
+            if q == 3 and self._qnone_refuses(t1 + t2, delim, quote):
                 return True
             src, path = self._source(sk, td, 'a')
             etl.tocsv(t1, src, encoding=enc, **kw)
@@ -213,6 +213,13 @@ class C15(Prop):
             data2 = json.loads(self._bytes_of(src2, path2, sk).decode('utf-8'))
             return [tuple(r) for r in data2] == [tuple(r) for r in t]
         raise ValueError(kind)
+
+    @staticmethod
+    def _qnone_refuses(t, delim, quote):
+        # the csv writer raises csv.Error (loudly, nothing is lost silently) under QUOTE_NONE for a cell containing a special
+        # character and for a one-cell row whose cell is empty ("single empty field record must be quoted")
+        return (any(ch in cell_text(c) for r in t for c in r for ch in (delim, quote, '\r', '\n'))
+                or any(len(r) == 1 and cell_text(r[0]) == '' for r in t))
 
     @staticmethod
     def _encodable(s, enc):
